@@ -205,6 +205,41 @@ class C11(Prop):
                                           f"{zone if zz == z2 else z2}) encoded as {g2}, want one of {want2}", {"zone": zz})
             acc.count("zone_switches_inside_a_case", 2)
             clock.set_zone(zone)
+            # the encoder under the name the API module binds for create_schedule, and the decoder as the listing parser uses it
+            import aioswitcher.api as _api
+            from aioswitcher.schedule import parser as _parser
+            from ..ref import replies as _rp
+
+            enc_api = getattr(_api, "time_to_hexadecimal_timestamp", None)
+            if enc_api is not None:
+                for m in (0, 61, 725, 1439, (now // 17) % 1440, (now // 19) % 1440):
+                    want_m = clock.epochs_of(zone, today, m // 60, m % 60)
+                    if not want_m:
+                        continue
+                    acc.ev()
+                    acc.count("encodes_through_the_api_modules_binding")
+                    try:
+                        gm = int.from_bytes(bytes.fromhex(enc_api(f"{m // 60:02d}:{m % 60:02d}")), "little")
+                    except Exception as exc:
+                        acc.violation("encode-raised:api-binding", f"aioswitcher.api's encoder raised {type(exc).__name__} for {m // 60:02d}:{m % 60:02d} in {zone}", {"zone": zone})
+                        continue
+                    if gm not in want_m:
+                        acc.violation("encode-wrong-epoch:api-binding", f"{m // 60:02d}:{m % 60:02d} in {zone} on {today}: the encoder the API module uses for create_schedule gives {gm} "
+                                      f"({clock.local(zone, gm)}), want one of {want_m}", {"zone": zone, "minute": m})
+            for n_, e in enumerate(FIXED_EPOCHS[:12]):
+                e2 = FIXED_EPOCHS[(n_ * 5 + now) % len(FIXED_EPOCHS)]
+                acc.ev()
+                try:
+                    listed = list(_parser.get_schedules(_rp.schedules([_rp.schedule_record(n_ % 8, 0x54, e, e2)])))
+                    got_se = (listed[0].start_time, listed[0].end_time) if listed else None
+                except Exception as exc:
+                    acc.violation("decode-raised:in-a-listing", f"a listing whose record starts at epoch {e} raised {type(exc).__name__}: {exc}", {"epoch": e, "zone": zone})
+                    continue
+                want_se = (clock.hhmm_of(zone, e), clock.hhmm_of(zone, e2))
+                if got_se != want_se:
+                    acc.violation("decode-wrong-time:in-a-listing", f"{zone}: a listed record (slot {n_ % 8}) with start {e} / end {e2} reads {got_se}, want {want_se}",
+                                  {"epoch": e, "zone": zone})
+            acc.count("decodes_inside_listings", 12)
             env.idle((0, 5, 3700, 90000)[now % 4])       # real time passes: the process idles before it decodes again, zone unchanged
             for e in FIXED_EPOCHS[:24]:
                 acc.ev()
